@@ -16,7 +16,7 @@ def text(n):
 
 
 def roles_for(o, typ):
-    if o["kind"] == "sco5":
+    if o["kind"] in ("sco5", "sco4"):
         return SCO5_ROLES
     return O.TABLES[o["v"]][typ][2]
 
@@ -35,8 +35,10 @@ def realize(o, typ="campaign"):
         val = o["props"][role]
         if val != "absent":
             args[prop] = copy.deepcopy(a if val == "a" else b)
-    if kind == "sco5":
+    if kind in ("sco5", "sco4"):
         args.update(created=O.us(o["created"]), modified=O.us(o["modified"]), revoked=bool(o["revoked"]), allow_custom=True)
+        if kind == "sco4":
+            args["id"] = "file--3d0f1e5c-7a2b-4c3d-9e8f-0a1b2c3d4e5f"     # an identifier its producer chose (UUIDv4): no property is locked by it
         args["hashes"] = {"MD5": "d41d8cd98f00b204e9800998ecf8427e"}     # so that the object stays constructible without its name (removal must be refused for the right reason)
         return stix2.v21.File(**args)
     cls, base, _ = O.TABLES[v][typ]
